@@ -36,7 +36,7 @@ func yamlTree(n *yaml.Node) any {
 		}
 		return map[string]any{"k": "map", "entries": entries}
 	default:
-		return map[string]any{"k": "other"}
+		return map[string]any{"k": "other", "v": n.Value} // alias nodes: Value is the anchor name, which GetMapKeys reads
 	}
 }
 
@@ -52,6 +52,7 @@ func genParse(g *G, repo string, n int, out io.Writer) {
 	enc := json.NewEncoder(out)
 	id := 0
 	emit := func(kind, text string) {
+		text = strings.ToValidUTF8(text, "\uFFFD") // what the JSON transport of the case would turn it into anyway
 		enc.Encode(ParseCase{Op: "parse", Id: id, Kind: kind, Profile: text, Tree: treeOf(text)})
 		id++
 	}
